@@ -52,6 +52,8 @@ def _short_ty(t):
 
 short_ty = _short_ty
 
+SHORT2FULL = {}
+
 # ------------------------------------------------------------------ constructors
 
 
@@ -239,6 +241,33 @@ def _same_ty_conv(fn):
     return False
 
 
+def rust_unescape(s):
+    out = []
+    i = 0
+    while i < len(s):
+        c = s[i]
+        if c == "\\" and i + 1 < len(s):
+            n = s[i + 1]
+            if n == "n":
+                out.append("\n"); i += 2; continue
+            if n == "t":
+                out.append("\t"); i += 2; continue
+            if n == "r":
+                out.append("\r"); i += 2; continue
+            if n == "0":
+                out.append("\0"); i += 2; continue
+            if n in "\\\"'":
+                out.append(n); i += 2; continue
+            if n == "u" and i + 2 < len(s) and s[i + 2] == "{":
+                j = s.index("}", i)
+                out.append(chr(int(s[i + 3:j], 16))); i = j + 1; continue
+            if n == "x":
+                out.append(chr(int(s[i + 2:i + 4], 16))); i += 4; continue
+        out.append(c)
+        i += 1
+    return "".join(out)
+
+
 # ------------------------------------------------------------------ evaluation
 
 
@@ -263,6 +292,21 @@ class Evaluator:
             return const("int", o["int"])
         if "str" in o:
             return const("str", o["str"])
+        if "tyconst" in o:
+            tc = o["tyconst"]
+            if tc.startswith('"') and tc.endswith('"'):
+                return const("str", rust_unescape(tc[1:-1]))
+            if tc.startswith("'") and tc.endswith("'"):
+                u = rust_unescape(tc[1:-1])
+                if len(u) == 1:
+                    return const("char", ord(u))
+            try:
+                return const("int", int(tc.split("_")[0]))
+            except ValueError:
+                pass
+            if tc in ("true", "false"):
+                return const("bool", tc == "true")
+            return ("tyconst", tc)
         if "uneval" in o:
             if "promoted" in o:
                 return self.promoted_value(o["promoted"])
@@ -383,9 +427,10 @@ class Evaluator:
             return ("cast", short_ty(strip_lt(rv["ty"])), a)
         if k == "discr":
             v = self.place(rv["place"], get)
-            if v[0] == "agg":
-                return ("variantof", v[2])
-            if v[0] == "enumc":
+            if v[0] in ("agg", "enumc"):
+                for d, nme in rv.get("variants") or []:
+                    if nme == v[2]:
+                        return const("int", d)
                 return ("variantof", v[2])
             return ("discr", v, tuple((d, n) for d, n in (rv.get("variants") or [])))
         if k == "agg":
@@ -410,9 +455,12 @@ class Evaluator:
             f = self.operand(t["func"], get)
             return ("callv", f, args, epoch), None
         res_inst = strip_lt(fn.get("res_inst", fn["inst"]))
-        n = norm_call(res_inst, r, args, fn)
+        n = norm_call(strip_lt(fn["inst"]), r, args, fn)
+        if n is None:
+            n = norm_call(res_inst, r, args, fn)
         if n is not None:
             return n, r
+        SHORT2FULL[short(r)] = r
         if impure is not None and not impure(r, t):
             return ("call", short(r), args), r
         return ("call", short(r), args, epoch), r
@@ -562,6 +610,8 @@ def show(e):
         return "ovf(%s)" % show(e[1])
     if k == "repeat":
         return "[%s; %s]" % (show(e[1]), e[2])
+    if k == "aggother":
+        return "%s[%s]" % (e[1], ", ".join(show(x) for x in e[2]))
     if k == "try":
         return "try(%s)" % show(e[1])
     if k == "propagate":
